@@ -244,7 +244,7 @@ def execute(sc, ctx):
             mm_.side = Environment(mm_.model, id=f"side{mi_}")
             for j_ in range(2):
                 mm_.side_idx.add(len(mm_.agents))
-                mm_.agents.append(Agent(f"m{mi_}s{j_}", mm_.model))
+                mm_.agents.append(Agent(f"m{mi_}a{j_}" if j_ == 0 else f"m{mi_}s{j_}", mm_.model))      # (one of them carries the id of an agent of the main environment: ids are unique per environment)
             ctx.probe("second_environment_bound_to_the_same_model")
     cr_ = sc.get("crowd")
     if cr_ and 0 <= cr_["m"] < len(models) and models[cr_["m"]].side is None:
